@@ -166,6 +166,16 @@ static void check_state(Ctx &c, const Cfg &cfg, TasmanianSparseGrid &g, const st
         auto P = probe_points(cfg);
         // also one node of the grid as evaluation point
         if (n > 0) P.push_back(std::vector<double>(x.begin() + (size_t)(n/2) * d, x.begin() + (size_t)(n/2) * d + d));
+        // ... and points next to nodes (formulas with a removable singularity at the nodes switch branches there): node + delta * width in direction 0
+        if (n > 0) for(double delta : {1e-11, -1e-9, 1e-7}) for(int q : {n / 2, n - 1}){
+            std::vector<double> p(x.begin() + (size_t) q * d, x.begin() + (size_t) q * d + d);
+            bool unb = (cfg.rule == rule_gausslaguerre || cfg.rule == rule_gausslaguerreodd || cfg.rule == rule_gausshermite || cfg.rule == rule_gausshermiteodd);
+            double lo = g.isFourier() ? 0.0 : -1.0, hi = 1.0, width = hi - lo; if (tr && !unb){ lo = cfg.ta[0]; hi = cfg.tb[0]; width = hi - lo; } if (unb) width = 1.0;
+            double v = p[0] + delta * width; if (!unb && (v < lo || v > hi || (g.isFourier() && v >= hi))) v = p[0] - delta * width;
+            if (unb && (cfg.rule == rule_gausslaguerre || cfg.rule == rule_gausslaguerreodd) && v < (tr ? cfg.ta[0] : 0.0)) v = p[0] + std::abs(delta);
+            p[0] = v; P.push_back(p);
+            if (delta != 1e-11) break; // the larger offsets at one node only
+        }
         bool cc0 = (g.getRule() == rule_clenshawcurtis0);
         for(size_t t=0;t<P.size();t++){
             auto &xt = P[t];
@@ -243,6 +253,10 @@ static void check_loaded_route(Ctx &c, const Cfg &cfg0, const std::string &hist)
     for(int i=0;i<n;i++) for(size_t s=0;s<sel.size();s++){ if (cfg.fam == F_FOURIER){ vals[(size_t) i*outs + 2*s] = f(&xs[(size_t) i*d], s, 0); vals[(size_t) i*outs + 2*s+1] = f(&xs[(size_t) i*d], s, 1); } else vals[(size_t) i*outs + s] = f(&xs[(size_t) i*d], s, 0); }
     g.loadNeededValues(vals); c.transitions++; c.states++;
     double tol = (cfg.fam == F_WAVELET) ? 1e-7 : 1e-9;
+    // a domain far from the origin and narrow loses digits in the domain map itself: the canonical image of a transformed node is only known to
+    // pert = eps max(|a|,|b|) / (b - a); data with that perturbation moves the interpolant by at most (Lebesgue sum) x (max |f'| <= degree) x pert
+    double pert = 0; if (tr && !unbounded(cfg.rule)) for(int j=0;j<d;j++) pert = std::max(pert, 4.5e-16 * std::max(std::abs(cfg.ta[j]), std::abs(cfg.tb[j])) / (cfg.tb[j] - cfg.ta[j]));
+    auto degree_of = [&](size_t s)->double{ double m = 1; if (s < sel.size()) for(int j=0;j<d;j++) m = std::max(m, (double) std::abs(sel[s][j])); return (cfg.fam == F_FOURIER) ? 2.0 * M_PI * m : m; };
     auto P = probe_points(cfg); P.push_back(std::vector<double>(xs.begin() + (size_t)(n/2)*d, xs.begin() + (size_t)(n/2)*d + d));
     std::string rname = IO::getRuleString(g.getRule());
     for(size_t t=0;t<P.size();t++){
@@ -251,9 +265,9 @@ static void check_loaded_route(Ctx &c, const Cfg &cfg0, const std::string &hist)
         auto iw = g.getInterpolationWeights(P[t]);
         for(int k=0;k<outs;k++){
             size_t s = (cfg.fam == F_FOURIER) ? k / 2 : k; int part = (cfg.fam == F_FOURIER) ? k % 2 : 0;
-            double ex = f(P[t].data(), s, part), sa = 0, mf = 0; for(int i=0;i<n;i++){ sa += std::abs(iw[i] * vals[(size_t) i*outs + k]); mf = std::max(mf, std::abs(vals[(size_t) i*outs + k])); }
+            double ex = f(P[t].data(), s, part), sa = 0, mf = 0, leb = 0; for(int i=0;i<n;i++){ sa += std::abs(iw[i] * vals[(size_t) i*outs + k]); mf = std::max(mf, std::abs(vals[(size_t) i*outs + k])); leb += std::abs(iw[i]); }
             c.evals++;
-            if (!(std::abs(y[k] - ex) <= 10 * tol * std::max(1.0, std::max(sa, std::max(mf, std::abs(ex)))))){
+            if (!(std::abs(y[k] - ex) <= 10 * tol * std::max(1.0, std::max(sa, std::max(mf, std::abs(ex)))) + 4.0 * leb * degree_of(s) * pert)){
                 std::ostringstream o; o.precision(15); o << "member ("; for(int j=0;j<d;j++) o << sel[s][j] << (j+1<d?",":""); o << (cfg.fam == F_FOURIER ? (part ? ") sin" : ") cos") : ")") << " loaded at the nodes: evaluate() gives " << y[k] << ", exact " << ex << " at probe " << t;
                 std::string cls = (cfg.fam == F_GLOBAL || cfg.fam == F_SEQUENCE) ? "iexact" : (cfg.fam == F_FOURIER ? "iexact" : "affine");
                 std::string ext = (cfg.fam == F_LOCALP || cfg.fam == F_WAVELET) ? ":order" + std::to_string(cfg.order) : "";
@@ -271,8 +285,11 @@ static void check_loaded_route(Ctx &c, const Cfg &cfg0, const std::string &hist)
             }catch(std::runtime_error &e){ std::string w = e.what(); if (w.find("hardcoded") != std::string::npos || w.find("are provided") != std::string::npos || w.find("table ends") != std::string::npos) break; report(c, "C03:update-with-values-throws:" + rname, cfg, hist + " load(space) update", w); return; }
             c.states++;
             for(size_t t=0;t<P.size();t++){ std::vector<double> y; g.evaluate(P[t], y);
+                // conditioning of this state: sum_i |w_i(x)| |v_i| and the Lebesgue sum over the loaded points (the surrogate only uses those)
+                auto iw2 = g.getInterpolationWeights(P[t]); const double *lv = g.getLoadedValues(); int nl = g.getNumLoaded();
                 for(int k=0;k<outs;k++){ double ex = f(P[t].data(), (size_t) k, 0); c.evals++;
-                    if (!(std::abs(y[k] - ex) <= 1e-7 * std::max(1.0, std::abs(ex)) * (1.0 + 10.0 * g.getNumLoaded()))){
+                    double sa = 0, leb = 0; for(int i=0;i<nl;i++){ sa += std::abs(iw2[i] * lv[(size_t) i*outs + k]); leb += std::abs(iw2[i]); }
+                    if (!(std::abs(y[k] - ex) <= 100 * tol * std::max(1.0, std::max(sa, std::abs(ex))) + 4.0 * leb * degree_of((size_t) k) * pert)){
                         std::ostringstream o; o.precision(15); o << "member ("; for(int j=0;j<d;j++) o << sel[k][j] << (j+1<d?",":""); o << ") after " << (stage == 0 ? "update(depth+1) with the refinement pending" : "update(depth+1) and loading the new values") << ": evaluate() gives " << y[k] << ", exact " << ex << " at probe " << t;
                         report(c, "C03:iexact:" + rname + ":evaluate-after-update", cfg, hist + " load(space) update(depth+1)" + (stage ? " load" : ""), o.str()); return; } } }
         }
@@ -280,7 +297,29 @@ static void check_loaded_route(Ctx &c, const Cfg &cfg0, const std::string &hist)
 }
 
 // ---------------------------------------------------------------- transitions (depth 1)
+// very deep one dimensional grids (tens of thousands of points): index arithmetic that is harmless on the small grids of the lattice can overflow here
+// (the integer offset r (N+1)/2 in the Fourier interpolation weights did for N = 3^10). Only the O(N) routes are exercised: interpolation weights at a few
+// points must sum to one and reproduce low and high members of the space; tolerance 1e-6 (recursively built phase tables lose digits with N).
+static void explore_deep(Ctx &c, const Cfg &cfg){
+    TasmanianSparseGrid g; make(g, cfg); c.states++; int n = g.getNumPoints(); auto pts = g.getPoints();
+    std::vector<double> xs = {0.3137, 0.50123, 0.999, pts[(size_t) n / 3], pts[(size_t) n - 1]};
+    if (cfg.fam != F_FOURIER) for(size_t q=0;q<3;q++) xs[q] = 2.0 * xs[q] - 1.0; // the first three are given in [0,1] units, the others are nodes
+    std::vector<int> modes; if (cfg.fam == F_FOURIER){ modes = {0, 1, 2, 7, (n - 1) / 4, (n - 1) / 2}; } else modes = {0, 1};
+    for(double x : xs){
+        std::vector<double> w; try{ w = g.getInterpolationWeights(std::vector<double>{x}); }catch(std::exception &e){ report(c, std::string("C03:deep:weights-throw:") + famname(cfg.fam), cfg, "make", e.what()); return; }
+        double sw = 0, sa = 0; for(int i=0;i<n;i++){ sw += w[i]; sa += std::abs(w[i]); } c.evals++; c.transitions++;
+        if (!(std::abs(sw - 1.0) <= 1e-6 * std::max(1.0, sa))){ std::ostringstream o; o.precision(15); o << "interpolation weights at x = " << x << " sum to " << sw << " (" << n << " points, sum |w| = " << sa << ")"; report(c, std::string("C03:deep:weights-sum:") + famname(cfg.fam), cfg, "make", o.str()); return; }
+        for(int k : modes) for(int part = 0; part < (cfg.fam == F_FOURIER ? 2 : 1); part++){
+            auto f = [&](double t)->double{ if (cfg.fam == F_FOURIER) return part ? std::sin(2.0 * M_PI * k * t) : std::cos(2.0 * M_PI * k * t); return k ? 0.3 + 0.7 * t : 1.0; };
+            double s = 0; for(int i=0;i<n;i++) s += w[i] * f(pts[i]); c.evals++;
+            if (!(std::abs(s - f(x)) <= 1e-6 * std::max(1.0, sa))){ std::ostringstream o; o.precision(15); o << "member " << (cfg.fam == F_FOURIER ? (part ? "sin " : "cos ") : "degree ") << k << ": weights . values = " << s << ", exact " << f(x) << " at x = " << x << " (" << n << " points)"; report(c, std::string("C03:deep:iexact:") + famname(cfg.fam), cfg, "make", o.str()); return; }
+        }
+    }
+    c.distinct.insert(vf::digest(cfg.str()).substr(0, 8));
+}
+
 static void explore_cfg(Ctx &c, const Cfg &cfg){
+    if (cfg.custom == "deep1d"){ explore_deep(c, cfg); return; }
     TasmanianSparseGrid g;
     // a depth beyond a hard-coded / custom table is documented to throw std::runtime_error: such configurations are outside the lattice
     auto table_limit = [](const std::string &w){ return w.find("hardcoded") != std::string::npos || w.find("are provided") != std::string::npos || w.find("table ends") != std::string::npos; };
@@ -334,6 +373,7 @@ static std::vector<Unit> units(){
     if (g_prop == "C03"){
         for(auto r : {rule_localp, rule_semilocalp, rule_localp0, rule_localpb}) for(int order : {-1, 0, 1, 2, 3, 4}) for(int d=1; d<=3; d++){ if (r == rule_semilocalp && order >= 0 && order < 2) continue; if (!th && d == 3 && !(order == 1 || order == 2)) continue; u.push_back({F_LOCALP, r, d, order}); } // 3-D: the Kronecker surplus algorithm
         for(int order : {1, 3}) for(int d=1; d<=2; d++) u.push_back({F_WAVELET, rule_wavelet, d, order});
+        u.push_back({F_FOURIER, rule_fourier, 1, -99}); u.push_back({F_LOCALP, rule_localp, 1, -98}); // deep one dimensional grids
     }
     return u;
 }
@@ -341,18 +381,20 @@ static std::string repo_root(){ const char *r = getenv("VERIF_REPO"); return r ?
 
 static std::vector<Cfg> unit_cfgs(const Unit &u){
     std::vector<Cfg> out; bool th = (g_tier == "thorough"); int d = u.dims;
+    if (u.order == -99){ for(int depth : (th ? std::vector<int>{8, 9, 10} : std::vector<int>{9, 10})){ Cfg c; c.fam = F_FOURIER; c.rule = rule_fourier; c.dims = 1; c.outs = 0; c.depth = depth; c.custom = "deep1d"; out.push_back(c); } return out; }
+    if (u.order == -98){ for(int depth : (th ? std::vector<int>{14, 15, 16} : std::vector<int>{15})) for(int order : {1, 2}){ Cfg c; c.fam = F_LOCALP; c.rule = rule_localp; c.dims = 1; c.outs = 0; c.depth = depth; c.order = order; c.custom = "deep1d"; out.push_back(c); } return out; }
     std::vector<std::vector<double>> AB = {{0, 0}};
     // parameter alphabet incl. the special values alpha = beta = 0 (Legendre), alpha + beta = -1 (removable singularity of the Jacobi recurrence), alpha = -1/2 (Chebyshev weight)
     if (usesAlpha(u.rule)){ AB = {{0.5, 1.5}, {0, 0}}; if (!unbounded(u.rule)) AB.push_back({-0.5, -0.5}); if (th){ AB.push_back({1.5, 0.5}); if (!unbounded(u.rule)) AB.push_back({-0.25, -0.75}); else { AB.push_back({2.0, 0}); AB.push_back({-0.5, 0}); } } }
     if (usesAlpha(u.rule) && !usesBeta(u.rule)) for(auto &ab : AB) ab[1] = 0;
-    std::vector<int> trs = {0, 1};
-    std::vector<double> ta = {-0.7, 0.4, 1.0}, tb = {2.1, 3.0, 1.5};
+    std::vector<int> trs = {0, 1}; if (g_prop == "C03" && !unbounded(u.rule)) trs.push_back(2); // 2: narrow domain far from the origin (round-off of the domain map moves nodes by ~1e-12 canonical units)
+    std::vector<double> ta = {-0.7, 0.4, 1.0}, tb = {2.1, 3.0, 1.5}; const std::vector<double> ta2 = {1000.0, -3000.0, 0.125}, tb2 = {1000.5, -2999.0, 0.126};
     if (u.fam == F_LOCALP || u.fam == F_WAVELET){
         int maxdepth = (d == 1) ? 5 : (d == 2 ? 4 : 3); if (u.fam == F_WAVELET) maxdepth = (d == 1) ? 4 : 2;
         std::vector<std::vector<int>> LIM = {{}}; if (d >= 2){ std::vector<int> l(d, 2); l[0] = 1; LIM.push_back(l); }
         for(int depth=0; depth<=maxdepth; depth++) for(auto &lim : LIM) for(int tr : trs){
             Cfg c; c.fam = u.fam; c.rule = u.rule; c.dims = d; c.outs = 0; c.depth = depth; c.order = u.order; c.limits = lim;
-            if (tr){ c.ta.assign(ta.begin(), ta.begin()+d); c.tb.assign(tb.begin(), tb.begin()+d); } out.push_back(c); }
+            if (tr == 1){ c.ta.assign(ta.begin(), ta.begin()+d); c.tb.assign(tb.begin(), tb.begin()+d); } if (tr == 2){ c.ta.assign(ta2.begin(), ta2.begin()+d); c.tb.assign(tb2.begin(), tb2.begin()+d); } out.push_back(c); }
         return out;
     }
     std::vector<std::vector<int>> W1, Wc, LIM;
@@ -366,7 +408,8 @@ static std::vector<Cfg> unit_cfgs(const Unit &u){
         c.aw = OneDimensionalMeta::isTypeCurved(type) ? Wc[iw] : W1[iw]; c.limits = lim; c.alpha = ab[0]; c.beta = ab[1];
         if (u.rule == rule_customtabulated) c.custom = (u.order > 100) ? "exotic:" + std::to_string(u.order - 100) : repo_root() + "/SparseGrids/GaussPattersonRule.table";
         if (u.order > 100 && (tr || depth > 4)) continue; // exotic rules: canonical domain, 6 tabulated levels
-        if (tr){ c.ta.assign(ta.begin(), ta.begin()+d); c.tb.assign(tb.begin(), tb.begin()+d); if (u.rule == rule_gausslaguerre || u.rule == rule_gausslaguerreodd || u.rule == rule_gausshermite || u.rule == rule_gausshermiteodd){ c.tb = std::vector<double>{2.0, 0.5, 1.25}; c.tb.resize(d); } }
+        if (tr == 2){ c.ta.assign(ta2.begin(), ta2.begin()+d); c.tb.assign(tb2.begin(), tb2.begin()+d); }
+        if (tr == 1){ c.ta.assign(ta.begin(), ta.begin()+d); c.tb.assign(tb.begin(), tb.begin()+d); if (u.rule == rule_gausslaguerre || u.rule == rule_gausslaguerreodd || u.rule == rule_gausshermite || u.rule == rule_gausshermiteodd){ c.tb = std::vector<double>{2.0, 0.5, 1.25}; c.tb.resize(d); } }
         out.push_back(c);
     }
     return out;
@@ -385,7 +428,7 @@ int main(int argc, char **argv){
     }
     auto U = units();
     size_t done = vf::parallel_units(U.size(), (int) A.geti("--workers", 8), [&](size_t ui){
-        const Unit &u = U[ui]; Ctx c; std::ostringstream nm; nm << famname(u.fam) << "/" << IO::getRuleString(u.rule) << "/d" << u.dims; if (u.fam == F_LOCALP || u.fam == F_WAVELET) nm << "/order" << u.order; if (u.order > 100) nm << "/exotic" << (u.order - 100); c.unit = nm.str();
+        const Unit &u = U[ui]; Ctx c; std::ostringstream nm; nm << famname(u.fam) << "/" << IO::getRuleString(u.rule) << "/d" << u.dims; if ((u.fam == F_LOCALP || u.fam == F_WAVELET) && u.order > -90) nm << "/order" << u.order; if (u.order < -90) nm << "/deep"; if (u.order > 100) nm << "/exotic" << (u.order - 100); c.unit = nm.str();
         auto cfgs = unit_cfgs(u); bool complete = true; size_t k = 0; double t0 = vf::now(); int ncrash = 0;
         // configurations run in forked children, a chunk per child; the child reports one line per finished configuration,
         // so a crash / sanitizer report / hang is attributed to the configuration after the last finished one
